@@ -22,7 +22,9 @@ CLAIM = dict(
          "filename laws (result over [A-Za-z0-9_.-], never starts with '.' or '_', no separator/blank/NUL, idempotent; NFKD as a "
          "section variable with contract identity-on-ASCII); on top of containment, send_from_directory's refusal logic and "
          "SharedDataMiddleware's export loop (exact match, prefix match at a '/' boundary, then safe_join) with the file system as a "
-         "section variable: the file that is opened exists and lies inside the exported directory. safe_join's rejection disjunction, its normalisation guard and default "
+         "section variable: the file that is opened exists and lies inside the exported directory; the same for every kind of export "
+         "(a single-file export serves exactly that file, a package export a resource inside package_path); and secure_filename "
+         "with os.name as an input: on Windows the result is never a device name (table regenerated). safe_join's rejection disjunction, its normalisation guard and default "
          "directory, secure_filename's character class and constants, and the three tests of SharedDataMiddleware's export loop are "
          "regenerated from the source on every run (send_from_directory and get_directory_loader are pinned); the model is "
          "compared with werkzeug and with the interpreter's posixpath on ~290k cases per quick run (every 1- and 2-component tuple "
@@ -211,6 +213,24 @@ def gen() -> None:
     nt = sb[4]
     if not (isinstance(nt, ast.If) and ast.unparse(nt.test).startswith("os.name == 'nt' and ") and not nt.orelse):
         raise px.Unsupported("secure_filename: the Windows-only branch is no longer guarded by os.name == 'nt'")
+    # the Windows branch itself (modelled with os.name as an input): pinned, device names and constants extracted
+    m_nt = re.fullmatch(r"if os\.name == 'nt' and filename and \(filename\.split\((?P<d>'(?:[^'\\]|\\.)')\)\[0\]\.upper\(\) in _windows_device_files\):\n"
+                        r"    filename = f'(?P<p>[^'{}]*)\{filename\}'", ast.unparse(nt))
+    if not m_nt:
+        raise px.Unsupported(f"secure_filename: Windows device-name branch not recognised: {ast.unparse(nt)}")
+    nt_dot = ast.literal_eval(m_nt.group("d"))
+    nt_prefix = m_nt.group("p")
+    if len(nt_prefix) != 1:
+        raise px.Unsupported("secure_filename: the device-name prefix is not one character")
+    dev = px.find_assign(utl, "_windows_device_files")
+    for n in ast.walk(dev):
+        if isinstance(n, ast.Name) and n.id not in {"i", "range"}:
+            raise px.Unsupported(f"_windows_device_files uses unknown name {n.id}")
+        if isinstance(n, (ast.Lambda, ast.Attribute)) or (isinstance(n, ast.Call) and not (isinstance(n.func, ast.Name) and n.func.id == "range")):
+            raise px.Unsupported("_windows_device_files construction not recognised")
+    devices = eval(compile(ast.Expression(dev), "<_windows_device_files>", "eval"), {"__builtins__": {"range": range}})  # noqa: S307
+    if not (isinstance(devices, set) and all(isinstance(x, str) and x.isascii() for x in devices)):
+        raise px.Unsupported("_windows_device_files is not a set of ASCII str")
     _expect(sb[5], "return filename", "secure_filename")
 
     # ---- send_from_directory: refusal logic pinned
@@ -231,6 +251,23 @@ def gen() -> None:
                "        return (os.path.basename(path), self._opener(path))\n    return (None, None)", "return loader"]
     if gl != want_gl:
         raise px.Unsupported(f"get_directory_loader: body changed: {gl}")
+    # package and single-file exports: loaders and the choice between them pinned
+    gp = [ast.unparse(x) for x in _strip_doc(px.find_def(sdm, "get_package_loader").body)]
+    head = ("def loader(path: str | None) -> tuple[str | None, _TOpener | None]:\n    if path is None:\n        return (None, None)\n"
+            "    path = safe_join(package_path, path)\n    if path is None:\n        return (None, None)\n"
+            "    basename = posixpath.basename(path)\n    try:\n        resource = reader.open_resource(path)\n"
+            "    except (OSError, ValueError):\n        return (None, None)\n")
+    if not (len(gp) == 5 and gp[2] == "reader = spec.loader.get_resource_reader(package)" and gp[3].startswith(head) and gp[4] == "return loader"):
+        raise px.Unsupported("get_package_loader: the path handling of the loader changed")
+    gf = [ast.unparse(x) for x in _strip_doc(px.find_def(sdm, "get_file_loader").body)]
+    if gf != ["return lambda x: (os.path.basename(filename), self._opener(filename))"]:
+        raise px.Unsupported(f"get_file_loader: body changed: {gf}")
+    init_loop = [ast.unparse(x) for x in _strip_doc(px.find_def(sdm, "__init__").body) if isinstance(x, ast.For)]
+    if init_loop != ["for key, value in exports:\n    if isinstance(value, tuple):\n        loader = self.get_package_loader(*value)\n"
+                     "    elif isinstance(value, str):\n        if os.path.isfile(value):\n            loader = self.get_file_loader(value)\n"
+                     "        else:\n            loader = self.get_directory_loader(value)\n    else:\n"
+                     "        raise TypeError(f'unknown def {value!r}')\n    self.exports.append((key, loader))"]:
+        raise px.Unsupported("SharedDataMiddleware.__init__: the choice of loader per export changed")
     call = _strip_doc(px.find_def(sdm, "__call__").body)
     if len(call) < 4 or ast.unparse(call[0]) != "path = get_path_info(environ)" or ast.unparse(call[1]) != "file_loader = None":
         raise px.Unsupported("SharedDataMiddleware.__call__: prologue changed")
@@ -272,6 +309,10 @@ def gen() -> None:
     text += "(* complement, within ASCII, of the class above; every non-ASCII code point is stripped *)\n"
     text += f"Definition filename_keep_class : list (N * N) := {px.coq_ranges(keep)}.\n"
     text += f"Definition filename_strip_chars : list N := {_codes(strip_chars)}.\n"
+    text += "(* secure_filename on Windows (os.name == 'nt'): os.sep and os.path.altsep there, the device names, the field separator and the prefix *)\n"
+    text += "Definition filename_seps_nt : list N := [92; 47]%N.\n"
+    text += "Definition windows_device_files : list (list N) := [" + "; ".join(_codes(x) for x in sorted(devices)) + "].\n"
+    text += f"Definition device_field_sep : N := {ord(nt_dot)}.\nDefinition device_prefix : N := {ord(nt_prefix)}.\n"
     text += "\n(* SharedDataMiddleware.__call__: the tests of the export loop and the separator appended to the export key *)\n"
     text += f"Definition sdm_exact (search_path path : list N) : bool :=\n  {sdm_exact}.\n"
     text += f"Definition sdm_append_slash (search_path : list N) : bool :=\n  {sdm_append}.\n"
@@ -531,6 +572,36 @@ def run(chk: Check) -> None:
         chk.count("secure_filename:empty-result" if not r else "secure_filename:non-empty")
         chk.case(("sf", s), nontrivial=len(s) > 0, sample={"op": "secure_filename", "filename": s, "impl": r} if len(s) > 3 else None)
 
+    # ------------------------------------------------ secure_filename as on Windows (os.name / os.sep / os.path.altsep patched)
+    devices = {"CON", "PRN", "AUX", "NUL"} | {f"COM{i}" for i in range(10)} | {f"LPT{i}" for i in range(10)}
+    nt_cases = (["CON", "con", "con.txt", "nul", "NUL.tar.gz", "aux", "LPT9", "lpt1.x", "COM0", "com10", "CONX", ".CON", "_CON", "C\\ON",
+                 "a/b\\c", "..\\..\\con", "con .txt", "prn.", "  nul  ", "\uff23\uff2f\uff2e", "c\u00f6n", "", "a\\", "\\con", "x/CON"]
+                + list(corpus.get("secure_filename_nt", [])))
+    nt_alpha = ["CON", "con", "nul", "aux", "prn", "COM1", "lpt9", ".", "..", "\\", "/", " ", "_", "-", "txt", "a", "1", "\uff0e", "\xe9", ":", "\x00"]
+    for _ in range(2500 if quick else 40000):
+        nt_cases.append("".join(rng.choice(nt_alpha) for _ in range(rng.randint(1, 5))))
+    real_os = wutils.os
+    fake_os = types.SimpleNamespace(sep="\\", name="nt", path=types.SimpleNamespace(altsep="/"))
+    try:
+        wutils.os = fake_os
+        for s_ in nt_cases:
+            inp = {"op": "secure_filename", "os.name": "nt", "filename": s_}
+            try:
+                r = with_timeout(wutils.secure_filename, 5, s_)
+            except Exception as e:  # noqa: BLE001
+                chk.fail("secure_filename-nt-raises", f"secure_filename raised {type(e).__name__} with os.name == 'nt'", inp)
+                continue
+            if r and r.split(".")[0].upper() in devices:
+                chk.fail("secure_filename-nt-device-name", f"result {r!r} is a Windows device name", inp)
+            if not r.isascii() or not allowed.match(r) or any(ch in r for ch in "/\\\x00"):
+                chk.fail("secure_filename-nt-alphabet", f"result {r!r} has a separator or a character outside [A-Za-z0-9_.-]", inp)
+            lines.append("sfos 1 " + cps(unicodedata.normalize("NFKD", s_)))
+            impl_out.append(cps(r))
+            chk.count("secure_filename:nt:prefixed" if r.startswith("_") else "secure_filename:nt:plain")
+            chk.case(("sfnt", s_), nontrivial=len(s_) > 0)
+    finally:
+        wutils.os = real_os
+
     # ------------------------------------------------ end to end over a temporary tree
     _e2e(chk, wutils, SharedDataMiddleware, EnvironBuilder, NotFound, corpus)
 
@@ -694,6 +765,54 @@ def _e2e(chk, wutils, SharedDataMiddleware, EnvironBuilder, NotFound, corpus) ->
                 chk.case(("sdm-model", url_path), nontrivial=True)
             chk.count("model:shared_data export loop compared", len(sdm_lines))
             chk.count("model:shared_data export loop mismatches", mism)
+
+        # ... and over every kind of export: directory, single file, package (resource reader)
+        pkg_dir = os.path.join(T, "pkgs", "c14pkg")
+        all_exports = {"/static": ("D", root), "/pkg": ("P", "data"), "/file": ("F", os.path.join(root, "index.txt")),
+                       "/pkg2/": ("P", "data/sub"), "/f2/": ("F", os.path.join(root, "sub", "inner.txt")), "/static/pkg": ("P", "data")}
+        mw3 = SharedDataMiddleware(fallback, {k: (("c14pkg", v) if kind == "P" else v) for k, (kind, v) in all_exports.items()})
+        a_lines, a_impl = [], []
+        for prefix in ["/static", "/pkg", "/file", "/pkg2", "/f2", "/static/pkg", "/pkgx", "/pkg/.."]:
+            for cs in paths[:: (2 if not quick else 4)]:
+                for url_path in (prefix + "/" + "/".join(cs), prefix + "/".join(cs)):
+                    if "\ud800" in url_path or " " in url_path:
+                        continue
+                    env = dict(environ)
+                    env["PATH_INFO"] = url_path.encode("utf-8").decode("latin-1")
+                    try:
+                        body = with_timeout(lambda: _body(mw3(env, lambda *a, **k: None)), 5)
+                    except Exception as e:  # noqa: BLE001
+                        body = ("<raised %s>" % type(e).__name__).encode()
+                    a_lines.append("sdma " + cps(url_path) + "".join(f" {cps(k)}={kind}:{cps(v)}" for k, (kind, v) in all_exports.items()))
+                    a_impl.append((url_path, body))
+        res = chk.run_model(exe, a_lines) if exe else None
+        if res is not None:
+            mism = 0
+            for (url_path, body), r in zip(a_impl, res):
+                cands = [] if r == "none" else [(x[0], uncps(x[2:])) for x in r.split("|")]
+                want = b"FALLBACK"
+                for kind, c in cands:
+                    real = os.path.join(pkg_dir, c) if kind == "R" else c
+                    try:
+                        ok = True if kind == "X" else os.path.isfile(real)
+                    except ValueError:
+                        ok = False
+                    if ok:
+                        with open(real, "rb") as fh:
+                            want = fh.read()
+                        break
+                if want != body:
+                    mism += 1
+                    if mism <= 5:
+                        chk.broken("correspondence", "C14 model of SharedDataMiddleware's export loop (all export kinds)",
+                                   f"PATH_INFO {url_path!r}: implementation served {body[:50]!r}, model candidates {cands!r} give {want[:50]!r}",
+                                   case={"PATH_INFO": url_path.replace(T, "<T>"), "impl": repr(body[:80])})
+                if body not in (b"FALLBACK",) and (body in outside or body.startswith(b"SENTINEL-OUTSIDE")):
+                    chk.fail("shared_data-serves-outside", f"shared_data served a file outside its export: {body[:60]!r}",
+                             {"op": "SharedDataMiddleware", "PATH_INFO": url_path.replace(T, "<T>")})
+                chk.case(("sdm-model-all", url_path), nontrivial=True)
+            chk.count("model:shared_data all export kinds compared", len(a_lines))
+            chk.count("model:shared_data all export kinds mismatches", mism)
     finally:
         os.chdir(cwd0)
         try:
@@ -798,7 +917,9 @@ def main(chk: Check) -> None:
         "extraction ExtrOcamlBasic + tools/conv.ml + coq/C14/driver.ml, OCaml 4.13.1",
         "file-system resolution (symlinks, os.path.isfile, importlib resource readers) is runtime: os.path.isfile is a section variable of the "
         "send_from_directory / SharedDataMiddleware theorems; the model lists the candidate paths and the harness asks the real file system; "
-        "package and single-file exports and the _root_path keyword of send_from_directory are exercised end to end only",
+        "the package resource reader is the `available` section variable of C14_shared_data_all_exports; the _root_path keyword of "
+        "send_from_directory (internal; a relative value is joined twice and ends in FileNotFoundError) and the cache / mimetype options are exercised end to end only",
+        "the Windows branch of secure_filename is run on this POSIX host with werkzeug.utils.os replaced by a namespace (sep '\\\\', altsep '/', name 'nt')",
     ]
     try:
         run(chk)
